@@ -11,6 +11,7 @@
 EXTENDS Field, Json, FiniteSets
 CONSTANTS MaxLen, Alphabet, Ws, Aligns, Wide, TWs, Kinds,
           BarWs,     \* widths W of [{bar:<al><W>}] fields (1- and 2-column progress clusters; printed once, with the empty content); {} = none
+          Sty,       \* a style suffix of the field ("" or ".red": colours are off, the style changes nothing that is painted)
           NarrowTWs, \* terminal widths narrower than some field widths: the field keeps its width W whatever the terminal width is; {} = none
           Wide2      \* TRUE: also {prefix:P} {wide_msg:<al>}suf - the text in front of the wide element comes from another field, which may overflow its width
 VARIABLES s, done
@@ -20,7 +21,7 @@ Pres == {<<>>, <<120>>, <<1001>>, <<233, 58>>}          \* "", "x", one CJK glyp
 Sufs == {<<>>, <<121>>, <<1002, 124>>}                   \* "", "y", CJK glyph + "|"
 
 (* one record shape for all kinds: cw / chars belong to kind "bar", pw / pm (width and content of the prefix field) to kind "wide2" *)
-X0 == [cw |-> 0, chars |-> <<>>, pw |-> 0, pm |-> <<>>]
+X0 == [cw |-> 0, chars |-> <<>>, pw |-> 0, pm |-> <<>>, sty |-> Sty]
 MsgOps(c) == { [op |-> "field", kind |-> kd, m |-> c, w |-> W, al |-> a, tr |-> t, pre |-> <<91>>, suf |-> <<93>>, tw |-> IF W < 100 THEN 200 ELSE 65535] @@ X0 :
                  kd \in Kinds, W \in Ws, a \in Aligns, t \in BOOLEAN }
              \cup { [op |-> "field", kind |-> kd, m |-> c, w |-> W, al |-> a, tr |-> t, pre |-> <<91>>, suf |-> <<93>>, tw |-> tw] @@ X0 :
@@ -31,19 +32,19 @@ WideOps(c) == IF ~Wide THEN {} ELSE
 (* a progress bar inside a field of W columns: floor(W/c) clusters of c columns, the rest is padding on the side(s) of the alignment *)
 BarChars(c) == IF c = 1 THEN <<35, 62, 45>> ELSE <<1000, 1001, 1002>>
 BarOps(c) == IF c # <<>> THEN {} ELSE
-             { [op |-> "field", kind |-> "bar", m |-> <<>>, w |-> W, al |-> a, tr |-> FALSE, pre |-> <<91>>, suf |-> <<93>>, tw |-> 200, cw |-> k, chars |-> BarChars(k), pw |-> 0, pm |-> <<>>] :
+             { [op |-> "field", kind |-> "bar", m |-> <<>>, w |-> W, al |-> a, tr |-> FALSE, pre |-> <<91>>, suf |-> <<93>>, tw |-> 200, cw |-> k, chars |-> BarChars(k), pw |-> 0, pm |-> <<>>, sty |-> ""] :
                  W \in BarWs, a \in Aligns \cup {""}, k \in {1, 2} }
 (* the text in front of the wide element is itself a field: {prefix:P} followed by a blank; a prefix wider than P is kept unshortened *)
 PreFields == { <<2, <<112>>>>, <<2, <<112, 113, 114, 115>>>>, <<3, <<1001, 1002>>>>, <<0, <<112, 113>>>> }
 Wide2Ops(c) == IF ~Wide2 THEN {} ELSE
                { [op |-> "field", kind |-> "wide2", m |-> c, w |-> WideWidth(tw, RefField(pf[2], pf[1], "<", FALSE) \o <<32>>, q), al |-> a, tr |-> TRUE,
-                  pre |-> RefField(pf[2], pf[1], "<", FALSE) \o <<32>>, suf |-> q, tw |-> tw, cw |-> 0, chars |-> <<>>, pw |-> pf[1], pm |-> pf[2]] :
+                  pre |-> RefField(pf[2], pf[1], "<", FALSE) \o <<32>>, suf |-> q, tw |-> tw, cw |-> 0, chars |-> <<>>, pw |-> pf[1], pm |-> pf[2], sty |-> ""] :
                  tw \in TWs, a \in Aligns, pf \in PreFields, q \in {<<>>, <<124>>} }
 (* two lines with a wide element each, of different alignment: the second line is judged (pw carries the first line's alignment: 1 = "<", 2 = "^", 3 = ">") *)
 AlCode(a) == IF a = "^" THEN 2 ELSE IF a = ">" THEN 3 ELSE 1
 WideLineOps(c) == IF ~Wide2 THEN {} ELSE
                { [op |-> "field", kind |-> "wide2l", m |-> c, w |-> WideWidth(tw, <<91>>, <<93>>), al |-> a, tr |-> TRUE, pre |-> <<91>>, suf |-> <<93>>, tw |-> tw,
-                  cw |-> 0, chars |-> <<>>, pw |-> AlCode(a1), pm |-> <<>>] : tw \in TWs, <<a, a1>> \in {p \in Aligns \X Aligns : p[1] # p[2]} }
+                  cw |-> 0, chars |-> <<>>, pw |-> AlCode(a1), pm |-> <<>>, sty |-> ""] : tw \in TWs, <<a, a1>> \in {p \in Aligns \X Aligns : p[1] # p[2]} }
 OpsOf(c) == MsgOps(c) \cup WideOps(c) \cup BarOps(c) \cup Wide2Ops(c) \cup WideLineOps(c)
 
 RECURSIVE SetToSeq(_)
